@@ -94,7 +94,7 @@ fn reproduces(case: &Case, sig: &str, ctx: &Ctx) -> bool {
 
 fn script_of(case: &Case) -> Option<&W1Script> {
     match case {
-        Case::W1(s) | Case::W1TwinInfallible(s) | Case::W1TwinPulse(s) => Some(s),
+        Case::W1(s) | Case::W1TwinInfallible(s) | Case::W1TwinPulse(s) | Case::W1TwinNoLimit(s) => Some(s),
         _ => None,
     }
 }
@@ -103,6 +103,7 @@ fn with_script(case: &Case, s: W1Script) -> Case {
         Case::W1(_) => Case::W1(s),
         Case::W1TwinInfallible(_) => Case::W1TwinInfallible(s),
         Case::W1TwinPulse(_) => Case::W1TwinPulse(s),
+        Case::W1TwinNoLimit(_) => Case::W1TwinNoLimit(s),
         c => c.clone(),
     }
 }
